@@ -684,8 +684,9 @@ def coq_nsphere_case(k, dim, n, s, tr):
         F = "[]" if e["F"] is None else fl_mat(e["F"])
         ents.append("(%s, (%s, %s))" % (fl_mat(e["state"]), F, fl(e["pot"] if e["pot"] is not None else float("nan"))))
     rand = fl_mat(tr["rand"]) if tr["rand"] is not None else "[]"
-    return ("Definition ns_%d : Z := cmp_mat (nsphereF %s [%s] %d%%nat %d%%nat) %s.\n"
-            % (k, rand, ";\n ".join(ents), dim, n, fl_mat(np.asarray(s.unit_sphere_points, dtype=float))))
+    return ("Definition nst_%d : nstab := [%s].\nDefinition nsr_%d := %s.\n"
+            "Definition ns_%d : Z := cmp_mat (nsphereF nsr_%d nst_%d %d%%nat %d%%nat) %s.\n"
+            % (k, ";\n ".join(ents), k, rand, k, k, k, dim, n, fl_mat(np.asarray(s.unit_sphere_points, dtype=float))))
 
 
 def nsphere_oracle(dim, n, s):
